@@ -361,9 +361,10 @@ def run(ctx):
         (NS_, "exclusive_minimum"): ("opt_max", "exclusive_minimum"), (NS_, "exclusive_maximum"): ("opt_min", "exclusive_maximum"),
         (JS + "StringSchema", "min_length"): ("max", "min_length"), (JS + "StringSchema", "max_length"): ("opt_min", "max_length"),
         (JS + "ArraySchema", "min_items"): ("max", "min_items"), (JS + "ArraySchema", "max_items"): ("opt_min", "max_items"),
+        (JS + "ObjectSchema", "min_properties"): ("max", "min_properties"), (JS + "ObjectSchema", "max_properties"): ("opt_min", "max_properties"),
     }
     seen = set()
-    for adt in (NS_, JS + "StringSchema", JS + "ArraySchema"):
+    for adt in (NS_, JS + "StringSchema", JS + "ArraySchema", JS + "ObjectSchema"):
         for b, bi, fm, _ in L.struct_inits(P, adt):
             if b.id != isect.id:
                 continue
@@ -377,7 +378,7 @@ def run(ctx):
                 ctx.check(ok, "C08-R1", "intersect:%s.%s" % (adt.rsplit("::", 1)[1], fld), "%s = %s(a.%s, b.%s)" % (fld, fn, src, src),
                           "Schema::intersect combines %s.%s with `%s`: the intersection of two schemas is no longer the tighter bound"
                           % (adt.rsplit("::", 1)[1], fld, F.fmt_expr(e)), site=isect.where(bi))
-    ctx.floor("C08-R1", "bound fields wired in Schema::intersect", len(seen), 8)
+    ctx.floor("C08-R1", "bound fields wired in Schema::intersect", len(seen), 10)
 
     # ------------------------------------------------------------------ R2 order of normalisation / arguments
     cnb = NUM + "check_number_bounds"
